@@ -11,3 +11,5 @@ for id in "$@"; do
 done
 git -C /repo checkout -- .
 git -C /repo status --short | head -3
+# leave a binary built from the unchanged tree behind
+(cd /verif/harness && CARGO_NET_OFFLINE=true cargo build --profile verif >/dev/null 2>&1)
